@@ -473,6 +473,30 @@ func c07Run(sc *core.Scenario, keepLog bool, p *c07Pass) *core.Result {
 			e.St.Faults["restart_clean"]++
 			verify("after-clean-restart", after)
 			p.filesAfter = c07Files(e)
+			if e.Failed() {
+				return
+			}
+			// a start whose first database step fails (transiently) must not cost anything:
+			// the start after it finds everything that was acknowledged
+			if e.W.DB != nil {
+				e.W.DB.FailNextInit = errInjectedStep
+				startErr := e.W.Restart()
+				e.St.Faults["start_with_failing_db_init"]++
+				if e.W.DB.FailNextInit != nil {
+					e.W.DB.FailNextInit = nil // Init was not reached
+				}
+				if startErr == nil {
+					e.St.Probes["start_survived_init_error"]++
+				}
+				if err := e.W.Restart(); err != nil {
+					e.Fail("restart", "restart after a start whose database Init failed: %v", err)
+					return
+				}
+				verify("after-failed-start", after)
+				if n := c07Files(e); n < p.filesAfter {
+					e.Fail("after-failed-start", "the cache holds %d files after a failed and a successful start, it held %d before", n, p.filesAfter)
+				}
+			}
 			_ = namesAfter
 		case "crash":
 			if img == nil && tornID == "" {
